@@ -140,17 +140,17 @@ Definition ch_add (ch : changes) (i : nat) (a : Z) : changes :=
   | None => al_set neqb ch i [a]
   end.
 
-Definition force_all (w : world) (ch : changes) (items : list nat) (a : Z) : world * changes :=
-  fold_left (fun (acc : world * changes) i =>
-               let (w, ch) := acc in
-               let (w, b) := force_recalc w i a in
-               (w, if b then ch_add ch i a else ch)) items (w, ch).
+Definition force_all (d : derived) (ch : changes) (items : list nat) (a : Z) : derived * changes :=
+  fold_left (fun (acc : derived * changes) i =>
+               let (d, ch) := acc in
+               let (d, b) := force_recalc d i a in
+               (d, if b then ch_add ch i a else ch)) items (d, ch).
 
-Definition force_all_attrs (w : world) (ch : changes) (i : nat) (attrs : list Z) : world * changes :=
-  fold_left (fun (acc : world * changes) a =>
-               let (w, ch) := acc in
-               let (w, b) := force_recalc w i a in
-               (w, if b then ch_add ch i a else ch)) attrs (w, ch).
+Definition force_all_attrs (d : derived) (ch : changes) (i : nat) (attrs : list Z) : derived * changes :=
+  fold_left (fun (acc : derived * changes) a =>
+               let (d, ch) := acc in
+               let (d, b) := force_recalc d i a in
+               (d, if b then ch_add ch i a else ch)) attrs (d, ch).
 
 Definition item_src (w : world) (i : nat) : option nat :=
   match get_item w i with Some it => i_loaded it | None => None end.
@@ -202,16 +202,11 @@ Definition gen_projected (w : world) (c : calc) (i : nat) (effs : list Z) : opti
   | None, _ => None
   end.
 
-Definition with_calc (w : world) (s : nat) (g : calc -> option calc) : world :=
-  match get_ss w s with
-  | None => fail w EKeyAbsent
-  | Some x => match g (ss_calc x) with
-              | Some c => put_ss w s (mkSolsys (ss_source x) (ss_fits x) c)
-              | None => fail w ENoneDeref
-              end
+Definition with_calc (d : derived) (s : nat) (g : calc -> option calc) : derived :=
+  match g (calc_of d s) with
+  | Some c => put_calc d s c
+  | None => dfail d ENoneDeref
   end.
-Definition calc_of (w : world) (s : nat) : calc :=
-  match get_ss w s with Some x => ss_calc x | None => empty_calc end.
 
 (* split attr changes into regular / masked (override callbacks) per fit, in order *)
 Definition split_changes (w : world) (ch : changes) : option (list (nat * (changes * changes))) :=
@@ -286,52 +281,52 @@ Section Publish.
 
   (* build the warfare-buff specs of one running buff effect and return the
      effect applications it causes (service.py, two copies of the same loop) *)
-  Definition build_buffs (fuel : nat) (w : world) (s f : nat) (fleet : option nat) (i : nat) (e : Z)
-    : world * list (proj * list (option nat)) :=
+  Definition build_buffs (fuel : nat) (w : world) (d : derived) (s f : nat) (fleet : option nat) (i : nat) (e : Z)
+    : derived * list (proj * list (option nat)) :=
     match item_src w i with
-    | None => (fail w EKeyAbsent, [])
+    | None => (dfail d EKeyAbsent, [])
     | Some src =>
       let p := mkProj i e src in
       fold_left
-        (fun (acc : world * list (proj * list (option nat))) (ba : Z * Z) =>
-           let (w, apps) := acc in
-           let (w, ov) := read_attr fuel w i (fst ba) in
+        (fun (acc : derived * list (proj * list (option nat))) (ba : Z * Z) =>
+           let (d, apps) := acc in
+           let (d, ov) := read_attr fuel w d i (fst ba) in
            match ov with
-           | None => (w, apps)
+           | None => (d, apps)
            | Some bq =>
              match get_ss w s with
-             | None => (fail w EKeyAbsent, apps)
+             | None => (dfail d EKeyAbsent, apps)
              | Some x =>
                match ss_source x with
-               | None => (fail w ENoneDeref, apps)
+               | None => (dfail d ENoneDeref, apps)
                | Some cs =>
                  match get_src w cs with
-                 | None => (fail w EKeyAbsent, apps)
+                 | None => (dfail d EKeyAbsent, apps)
                  | Some u =>
                    match (match q_to_z bq with Some bid => al_get zeqb (u_buffs u) bid | None => None end) with
-                   | None | Some [] => (w, apps)
+                   | None | Some [] => (d, apps)
                    | Some tpls =>
                      let bkey := q_to_z bq in
-                     let w :=
+                     let d :=
                          fold_left
-                           (fun w (t : buff_template) =>
-                              let mid := w_next w in
-                              let w := set_next w (S mid) in
+                           (fun d (t : buff_template) =>
+                              let mid := d_next d in
+                              let d := d_set_next d (S mid) in
                               let m := mkMod (b_filter t) (b_extra t) ModDomain_target (b_tgt_attr t)
                                              (b_op t) (b_aggmode t) bkey (snd ba) in
                               let ef_res := match get_item w i with
                                             | Some it => match item_effect w it e with
                                                          | Some ef => e_resist_attr ef | None => None end
                                             | None => None end in
-                              with_calc w s (fun c => Some (c_set_buffs c (ks_add_entry proj_eqb spec_eqb (c_buffs c) p
+                              with_calc d s (fun c => Some (c_set_buffs c (ks_add_entry proj_eqb spec_eqb (c_buffs c) p
                                                                                       (mkSpec i e src mid m ef_res)))))
-                           tpls w in
-                     (w, apps ++ [(p, buff_tgt_ships w s f fleet)])
+                           tpls d in
+                     (d, apps ++ [(p, buff_tgt_ships w s f fleet)])
                    end
                  end
                end
              end
-           end) WARFARE_BUFF_ATTRS (w, [])
+           end) WARFARE_BUFF_ATTRS (d, [])
     end.
 
   Definition is_buff_effect (w : world) (i : nat) (e : Z) : option bool :=
@@ -340,184 +335,184 @@ Section Publish.
     | None => None
     end.
 
-  Fixpoint publish (fuel : nat) (w : world) (f : nat) (msgs : list msg) {struct fuel} : world :=
+  Fixpoint publish (fuel : nat) (w : world) (d : derived) (f : nat) (msgs : list msg) {struct fuel} : derived :=
     match fuel with
-    | O => match msgs with [] => w | _ => fail w EOutOfFuel end
+    | O => match msgs with [] => d | _ => dfail d EOutOfFuel end
     | S fuel =>
-      let publish_changes (w : world) (ch : changes) : world :=
+      let publish_changes (d : derived) (ch : changes) : derived :=
           match ch with
-          | [] => w
+          | [] => d
           | _ =>
             match split_changes w ch with
-            | None => fail w ENoneDeref
+            | None => dfail d ENoneDeref
             | Some per_fit =>
-              fold_left (fun w (p : nat * (changes * changes)) =>
+              fold_left (fun d (p : nat * (changes * changes)) =>
                            let (r, m) := snd p in
-                           publish fuel w (fst p)
+                           publish fuel w d (fst p)
                                    ((match r with [] => [] | _ => [MAttrsChanged r] end)
                                     ++ (match m with [] => [] | _ => [MAttrsChangedMasked m] end)))
-                        per_fit w
+                        per_fit d
             end
           end in
       (* __revise_tgt_projections *)
-      let revise_tgt (w : world) (s : nat) (i : nat) (loaded : bool) : world :=
-          let (w, ch) :=
+      let revise_tgt (d : derived) (s : nat) (i : nat) (loaded : bool) : derived :=
+          let (d, ch) :=
               fold_left
-                (fun (acc : world * changes) pr =>
-                   let (w, ch) := acc in
-                   match gen_projected w (calc_of w s) (pj_item pr) [pj_eff pr] with
-                   | None => (fail w EKeyAbsent, ch)
+                (fun (acc : derived * changes) pr =>
+                   let (d, ch) := acc in
+                   match gen_projected w (calc_of d s) (pj_item pr) [pj_eff pr] with
+                   | None => (dfail d EKeyAbsent, ch)
                    | Some specs =>
                      fold_left
-                       (fun (acc : world * changes) sp =>
-                          let (w, ch) := acc in
-                          let w := if loaded
-                                   then with_calc w s (fun c => apply_targets c (projected_targets w c sp [Some i]) sp true)
-                                   else w in
-                          let (w, ch) := force_all w ch (projected_affectees w (calc_of w s) sp [Some i])
+                       (fun (acc : derived * changes) sp =>
+                          let (d, ch) := acc in
+                          let d := if loaded
+                                   then with_calc d s (fun c => apply_targets c (projected_targets w c sp [Some i]) sp true)
+                                   else d in
+                          let (d, ch) := force_all d ch (projected_affectees w (calc_of d s) sp [Some i])
                                                    (m_tgt_attr (sp_mod sp)) in
-                          let w := if loaded then w
-                                   else with_calc w s (fun c => apply_targets c (projected_targets w c sp [Some i]) sp false) in
-                          (w, ch)) specs (w, ch)
-                   end) (ks_get onat_eqb (c_tgtp (calc_of w s)) (Some i)) (w, []) in
-          publish_changes w ch in
-      let handle (w : world) (s : nat) (m : msg) : world :=
+                          let d := if loaded then d
+                                   else with_calc d s (fun c => apply_targets c (projected_targets w c sp [Some i]) sp false) in
+                          (d, ch)) specs (d, ch)
+                   end) (ks_get onat_eqb (c_tgtp (calc_of d s)) (Some i)) (d, []) in
+          publish_changes d ch in
+      let handle (d : derived) (s : nat) (m : msg) : derived :=
           match m with
           | MItemLoaded i =>
-            let w := with_calc w s (fun c => register_affectee w c i) in
-            let w := match get_item w i with
+            let d := with_calc d s (fun c => register_affectee w c i) in
+            let d := match get_item w i with
                      | Some it => if cr_solsys (class_row_of (i_cls it))
-                                  then with_calc w s (fun c => register_solsys_item w c i) else w
-                     | None => w
+                                  then with_calc d s (fun c => register_solsys_item w c i) else d
+                     | None => d
                      end in
-            let w := revise_tgt w s i true in
+            let d := revise_tgt d s i true in
             if is_ship w i then
               let my_fleet := fit_fleet w f in
-              match buff_groups w (calc_of w s) (c_projectors (calc_of w s))
+              match buff_groups w (calc_of d s) (c_projectors (calc_of d s))
                                 (fun pf => Nat.eqb pf f
                                            || (match my_fleet with
                                                | Some fl => onat_eqb (fit_fleet w pf) (Some fl)
                                                | None => false end)) with
-              | None => fail w ENoneDeref
+              | None => dfail d ENoneDeref
               | Some g =>
-                fold_left (fun w (p : nat * list proj) =>
-                             publish fuel w (fst p)
-                                     (map (fun pr => MEffectApplied (pj_item pr) (pj_eff pr) [Some i]) (snd p))) g w
+                fold_left (fun d (p : nat * list proj) =>
+                             publish fuel w d (fst p)
+                                     (map (fun pr => MEffectApplied (pj_item pr) (pj_eff pr) [Some i]) (snd p))) g d
               end
-            else w
+            else d
           | MItemUnloaded i =>
-            let w :=
+            let d :=
                 if is_ship w i then
-                  match buff_groups w (calc_of w s) (ks_get onat_eqb (c_tgtp (calc_of w s)) (Some i)) (fun _ => true) with
-                  | None => fail w ENoneDeref
+                  match buff_groups w (calc_of d s) (ks_get onat_eqb (c_tgtp (calc_of d s)) (Some i)) (fun _ => true) with
+                  | None => dfail d ENoneDeref
                   | Some g =>
-                    fold_left (fun w (p : nat * list proj) =>
-                                 publish fuel w (fst p)
+                    fold_left (fun d (p : nat * list proj) =>
+                                 publish fuel w d (fst p)
                                          (map (fun pr => MEffectUnapplied (pj_item pr) (pj_eff pr) [Some i] false) (snd p)))
-                              g w
+                              g d
                   end
-                else w in
-            let w := revise_tgt w s i false in
-            let w := with_calc w s (fun c => unregister_affectee w c i) in
+                else d in
+            let d := revise_tgt d s i false in
+            let d := with_calc d s (fun c => unregister_affectee w c i) in
             match get_item w i with
             | Some it => if cr_solsys (class_row_of (i_cls it))
-                         then with_calc w s (fun c => Some (unregister_solsys_item c i)) else w
-            | None => w
+                         then with_calc d s (fun c => Some (unregister_solsys_item c i)) else d
+            | None => d
             end
           | MEffectsStarted i effs =>
             match gen_specs w i effs false, gen_projectors w i effs with
             | Some specs, Some projs =>
-              let (w, ch) :=
-                  fold_left (fun (acc : world * changes) sp =>
-                               let (w, ch) := acc in
-                               let w := with_calc w s (fun c => apply_targets c (local_targets w c sp) sp true) in
-                               match local_affectees w (calc_of w s) sp with
-                               | None => (fail w ENoneDeref, ch)
-                               | Some items => force_all w ch items (m_tgt_attr (sp_mod sp))
-                               end) specs (w, []) in
-              let w := fold_left (fun w p => with_calc w s (fun c => register_projector w c p)) projs w in
+              let (d, ch) :=
+                  fold_left (fun (acc : derived * changes) sp =>
+                               let (d, ch) := acc in
+                               let d := with_calc d s (fun c => apply_targets c (local_targets w c sp) sp true) in
+                               match local_affectees w (calc_of d s) sp with
+                               | None => (dfail d ENoneDeref, ch)
+                               | Some items => force_all d ch items (m_tgt_attr (sp_mod sp))
+                               end) specs (d, []) in
+              let d := fold_left (fun d p => with_calc d s (fun c => register_projector w c p)) projs d in
               let fleet := fit_fleet w f in
-              let (w, apps) :=
-                  fold_left (fun (acc : world * list (proj * list (option nat))) e =>
-                               let (w, apps) := acc in
+              let (d, apps) :=
+                  fold_left (fun (acc : derived * list (proj * list (option nat))) e =>
+                               let (d, apps) := acc in
                                match is_buff_effect w i e with
-                               | Some true => let (w, a) := build_buffs fuel w s f fleet i e in (w, apps ++ a)
-                               | Some false => (w, apps)
-                               | None => (fail w EKeyAbsent, apps)
-                               end) effs (w, []) in
-              let w := publish_changes w ch in
+                               | Some true => let (d, a) := build_buffs fuel w d s f fleet i e in (d, apps ++ a)
+                               | Some false => (d, apps)
+                               | None => (dfail d EKeyAbsent, apps)
+                               end) effs (d, []) in
+              let d := publish_changes d ch in
               match apps with
-              | [] => w
-              | _ => publish fuel w f (map (fun a => MEffectApplied (pj_item (fst a)) (pj_eff (fst a)) (snd a)) apps)
+              | [] => d
+              | _ => publish fuel w d f (map (fun a => MEffectApplied (pj_item (fst a)) (pj_eff (fst a)) (snd a)) apps)
               end
-            | _, _ => fail w EKeyAbsent
+            | _, _ => dfail d EKeyAbsent
             end
           | MEffectsStopped i effs =>
             match gen_projectors w i effs with
-            | None => fail w EKeyAbsent
+            | None => dfail d EKeyAbsent
             | Some projs =>
-              let c0 := calc_of w s in
+              let c0 := calc_of d s in
               let unapps := map (fun p => (p, ks_get proj_eqb (c_ptgts c0) p))
                                 (filter (fun p => ks_has proj_eqb (c_buffs c0) p) projs) in
-              let w := match unapps with
-                       | [] => w
+              let d := match unapps with
+                       | [] => d
                        | _ =>
-                         let w := publish fuel w f
+                         let d := publish fuel w d f
                                           (map (fun a => MEffectUnapplied (pj_item (fst a)) (pj_eff (fst a)) (snd a)
                                                                           (ks_has proj_eqb (c_ptgts c0) (fst a)))
                                                unapps) in
-                         fold_left (fun w a => with_calc w s (fun c =>
+                         fold_left (fun d a => with_calc d s (fun c =>
                                       if ks_has proj_eqb (c_buffs c) (fst a)
                                       then Some (c_set_buffs c (ks_del proj_eqb (c_buffs c) (fst a)))
-                                      else None)) unapps w
+                                      else None)) unapps d
                        end in
               match gen_specs w i effs false with
-              | None => fail w EKeyAbsent
+              | None => dfail d EKeyAbsent
               | Some specs =>
-                let (w, ch) :=
-                    fold_left (fun (acc : world * changes) sp =>
-                                 let (w, ch) := acc in
-                                 match local_affectees w (calc_of w s) sp with
-                                 | None => (fail w ENoneDeref, ch)
+                let (d, ch) :=
+                    fold_left (fun (acc : derived * changes) sp =>
+                                 let (d, ch) := acc in
+                                 match local_affectees w (calc_of d s) sp with
+                                 | None => (dfail d ENoneDeref, ch)
                                  | Some items =>
-                                   let (w, ch) := force_all w ch items (m_tgt_attr (sp_mod sp)) in
-                                   (with_calc w s (fun c => apply_targets c (local_targets w c sp) sp false), ch)
-                                 end) specs (w, []) in
-                let w := fold_left (fun w p => with_calc w s (fun c => unregister_projector w c p)) projs w in
-                publish_changes w ch
+                                   let (d, ch) := force_all d ch items (m_tgt_attr (sp_mod sp)) in
+                                   (with_calc d s (fun c => apply_targets c (local_targets w c sp) sp false), ch)
+                                 end) specs (d, []) in
+                let d := fold_left (fun d p => with_calc d s (fun c => unregister_projector w c p)) projs d in
+                publish_changes d ch
               end
             end
           | MEffectApplied i e tgts =>
-            match gen_projected w (calc_of w s) i [e], gen_projectors w i [e] with
+            match gen_projected w (calc_of d s) i [e], gen_projectors w i [e] with
             | Some specs, Some projs =>
-              let (w, ch) :=
-                  fold_left (fun (acc : world * changes) sp =>
-                               let (w, ch) := acc in
-                               let w := with_calc w s (fun c => apply_targets c (projected_targets w c sp tgts) sp true) in
-                               force_all w ch (projected_affectees w (calc_of w s) sp tgts) (m_tgt_attr (sp_mod sp)))
-                            specs (w, []) in
-              let w := fold_left (fun w p => with_calc w s (fun c => Some (apply_projector c p tgts))) projs w in
-              publish_changes w ch
-            | _, _ => fail w EKeyAbsent
+              let (d, ch) :=
+                  fold_left (fun (acc : derived * changes) sp =>
+                               let (d, ch) := acc in
+                               let d := with_calc d s (fun c => apply_targets c (projected_targets w c sp tgts) sp true) in
+                               force_all d ch (projected_affectees w (calc_of d s) sp tgts) (m_tgt_attr (sp_mod sp)))
+                            specs (d, []) in
+              let d := fold_left (fun d p => with_calc d s (fun c => Some (apply_projector c p tgts))) projs d in
+              publish_changes d ch
+            | _, _ => dfail d EKeyAbsent
             end
           | MEffectUnapplied i e tgts aliased =>
-            match gen_projected w (calc_of w s) i [e], gen_projectors w i [e] with
+            match gen_projected w (calc_of d s) i [e], gen_projectors w i [e] with
             | Some specs, Some projs =>
-              let (w, ch) :=
-                  fold_left (fun (acc : world * changes) sp =>
-                               let (w, ch) := acc in
-                               let (w, ch) := force_all w ch (projected_affectees w (calc_of w s) sp tgts)
+              let (d, ch) :=
+                  fold_left (fun (acc : derived * changes) sp =>
+                               let (d, ch) := acc in
+                               let (d, ch) := force_all d ch (projected_affectees w (calc_of d s) sp tgts)
                                                         (m_tgt_attr (sp_mod sp)) in
-                               (with_calc w s (fun c => apply_targets c (projected_targets w c sp tgts) sp false), ch))
-                            specs (w, []) in
-              let w := fold_left (fun w p => with_calc w s (fun c => Some (unapply_projector c p tgts aliased))) projs w in
-              publish_changes w ch
-            | _, _ => fail w EKeyAbsent
+                               (with_calc d s (fun c => apply_targets c (projected_targets w c sp tgts) sp false), ch))
+                            specs (d, []) in
+              let d := fold_left (fun d p => with_calc d s (fun c => Some (unapply_projector c p tgts aliased))) projs d in
+              publish_changes d ch
+            | _, _ => dfail d EKeyAbsent
             end
           | MAttrsChanged changed =>
             (* _revise_regular_attr_dependents *)
             let buff_attr_touched (attrs : list Z) := existsb (fun ba => mem zeqb attrs (fst ba)) WARFARE_BUFF_ATTRS in
-            let c0 := calc_of w s in
+            let c0 := calc_of d s in
             let unapps :=
                 flat_map (fun (p : nat * list Z) =>
                             match get_item w (fst p), item_src w (fst p) with
@@ -529,115 +524,112 @@ Section Publish.
                                        (item_effects w it)
                             | _, _ => []
                             end) changed in
-            let w := publish fuel w f (map (fun a => MEffectUnapplied (pj_item (fst a)) (pj_eff (fst a)) (snd a)
+            let d := publish fuel w d f (map (fun a => MEffectUnapplied (pj_item (fst a)) (pj_eff (fst a)) (snd a)
                                                                       (ks_has proj_eqb (c_ptgts c0) (fst a))) unapps) in
-            let (w, ch) :=
+            let (d, ch) :=
                 fold_left
-                  (fun (acc : world * changes) (p : nat * list Z) =>
-                     let (w, ch) := acc in
+                  (fun (acc : derived * changes) (p : nat * list Z) =>
+                     let (d, ch) := acc in
                      let i := fst p in
                      let attrs := snd p in
                      match get_item w i with
-                     | None => (fail w EKeyAbsent, ch)
+                     | None => (dfail d EKeyAbsent, ch)
                      | Some it =>
                        (* capped attributes *)
-                       let (w, ch) :=
-                           fold_left (fun (acc : world * changes) a =>
-                                        let (w, ch) := acc in
-                                        match get_item w i with
-                                        | Some it => force_all_attrs w ch i (ks_get zeqb (i_capmap it) a)
-                                        | None => (w, ch)
-                                        end) attrs (w, ch) in
+                       let (d, ch) :=
+                           fold_left (fun (acc : derived * changes) a =>
+                                        let (d, ch) := acc in
+                                        force_all_attrs d ch i (ks_get zeqb (ic_caps (get_icache d i)) a)) attrs (d, ch) in
                        (* local dogma dependents *)
-                       let (w, ch) :=
+                       let (d, ch) :=
                            match gen_specs w i (i_running it) false with
-                           | None => (fail w EKeyAbsent, ch)
+                           | None => (dfail d EKeyAbsent, ch)
                            | Some specs =>
-                             fold_left (fun (acc : world * changes) sp =>
-                                          let (w, ch) := acc in
+                             fold_left (fun (acc : derived * changes) sp =>
+                                          let (d, ch) := acc in
                                           if mem zeqb attrs (m_src_attr (sp_mod sp)) then
-                                            match local_affectees w (calc_of w s) sp with
-                                            | None => (fail w ENoneDeref, ch)
-                                            | Some items => force_all w ch items (m_tgt_attr (sp_mod sp))
+                                            match local_affectees w (calc_of d s) sp with
+                                            | None => (dfail d ENoneDeref, ch)
+                                            | Some items => force_all d ch items (m_tgt_attr (sp_mod sp))
                                             end
-                                          else (w, ch)) specs (w, ch)
+                                          else (d, ch)) specs (d, ch)
                            end in
                        (* projected dependents over current targets *)
-                       let (w, ch) :=
+                       let (d, ch) :=
                            match gen_projectors w i (i_running it) with
-                           | None => (fail w EKeyAbsent, ch)
+                           | None => (dfail d EKeyAbsent, ch)
                            | Some projs =>
-                             fold_left (fun (acc : world * changes) pr =>
-                                          let (w, ch) := acc in
-                                          match ks_get proj_eqb (c_ptgts (calc_of w s)) pr with
-                                          | [] => (w, ch)
+                             fold_left (fun (acc : derived * changes) pr =>
+                                          let (d, ch) := acc in
+                                          match ks_get proj_eqb (c_ptgts (calc_of d s)) pr with
+                                          | [] => (d, ch)
                                           | tgts =>
-                                            match gen_projected w (calc_of w s) i [pj_eff pr] with
-                                            | None => (fail w EKeyAbsent, ch)
+                                            match gen_projected w (calc_of d s) i [pj_eff pr] with
+                                            | None => (dfail d EKeyAbsent, ch)
                                             | Some specs =>
-                                              fold_left (fun (acc : world * changes) sp =>
-                                                           let (w, ch) := acc in
+                                              fold_left (fun (acc : derived * changes) sp =>
+                                                           let (d, ch) := acc in
                                                            if mem zeqb attrs (m_src_attr (sp_mod sp))
-                                                           then force_all w ch (projected_affectees w (calc_of w s) sp tgts)
+                                                           then force_all d ch (projected_affectees w (calc_of d s) sp tgts)
                                                                           (m_tgt_attr (sp_mod sp))
-                                                           else (w, ch)) specs (w, ch)
+                                                           else (d, ch)) specs (d, ch)
                                             end
-                                          end) projs (w, ch)
+                                          end) projs (d, ch)
                            end in
                        (* resist dependents: projectors targeting this item *)
-                       fold_left (fun (acc : world * changes) pr =>
-                                    let (w, ch) := acc in
+                       fold_left (fun (acc : derived * changes) pr =>
+                                    let (d, ch) := acc in
                                     let res := match get_src w (pj_src pr) with
                                                | Some u => match get_effect u (pj_eff pr) with
                                                            | Some ef => e_resist_attr ef | None => None end
                                                | None => None end in
                                     match res with
-                                    | None => (w, ch)
+                                    | None => (d, ch)
                                     | Some ra =>
-                                      if negb (mem zeqb attrs ra) then (w, ch)
+                                      if negb (mem zeqb attrs ra) then (d, ch)
                                       else
-                                        let tgts := ks_get proj_eqb (c_ptgts (calc_of w s)) pr in
-                                        match gen_projected w (calc_of w s) (pj_item pr) [pj_eff pr] with
-                                        | None => (fail w EKeyAbsent, ch)
+                                        let tgts := ks_get proj_eqb (c_ptgts (calc_of d s)) pr in
+                                        match gen_projected w (calc_of d s) (pj_item pr) [pj_eff pr] with
+                                        | None => (dfail d EKeyAbsent, ch)
                                         | Some specs =>
-                                          fold_left (fun (acc : world * changes) sp =>
-                                                       let (w, ch) := acc in
-                                                       force_all w ch (projected_affectees w (calc_of w s) sp tgts)
-                                                                 (m_tgt_attr (sp_mod sp))) specs (w, ch)
+                                          fold_left (fun (acc : derived * changes) sp =>
+                                                       let (d, ch) := acc in
+                                                       force_all d ch (projected_affectees w (calc_of d s) sp tgts)
+                                                                 (m_tgt_attr (sp_mod sp))) specs (d, ch)
                                         end
-                                    end) (ks_get onat_eqb (c_tgtp (calc_of w s)) (Some i)) (w, ch)
-                     end) changed (w, []) in
-            let w := fold_left (fun w a => with_calc w s (fun c =>
+                                    end) (ks_get onat_eqb (c_tgtp (calc_of d s)) (Some i)) (d, ch)
+                     end) changed (d, []) in
+            let d := fold_left (fun d a => with_calc d s (fun c =>
                                   if ks_has proj_eqb (c_buffs c) (fst a)
                                   then Some (c_set_buffs c (ks_del proj_eqb (c_buffs c) (fst a)))
-                                  else None)) unapps w in
-            let w := publish_changes w ch in
-            let (w, apps) :=
+                                  else None)) unapps d in
+            let d := publish_changes d ch in
+            let (d, apps) :=
                 fold_left
-                  (fun (acc : world * list (proj * list (option nat))) (p : nat * list Z) =>
-                     let (w, apps) := acc in
-                     if negb (buff_attr_touched (snd p)) then (w, apps)
+                  (fun (acc : derived * list (proj * list (option nat))) (p : nat * list Z) =>
+                     let (d, apps) := acc in
+                     if negb (buff_attr_touched (snd p)) then (d, apps)
                      else
                        match get_item w (fst p), item_fit w (fst p) with
                        | Some it, Some ifit =>
-                         fold_left (fun (acc : world * list (proj * list (option nat))) e =>
-                                      let (w, apps) := acc in
+                         fold_left (fun (acc : derived * list (proj * list (option nat))) e =>
+                                      let (d, apps) := acc in
                                       match is_buff_effect w (fst p) e with
                                       | Some true =>
-                                        let (w, a) := build_buffs fuel w s f (fit_fleet w ifit) (fst p) e in (w, apps ++ a)
-                                      | Some false => (w, apps)
-                                      | None => (fail w EKeyAbsent, apps)
-                                      end) (i_running it) (w, apps)
-                       | _, _ => (fail w ENoneDeref, apps)
-                       end) changed (w, []) in
-            let w := publish_changes w ch in
+                                        let (d, a) := build_buffs fuel w d s f (fit_fleet w ifit) (fst p) e in (d, apps ++ a)
+                                      | Some false => (d, apps)
+                                      | None => (dfail d EKeyAbsent, apps)
+                                      end) (i_running it) (d, apps)
+                       | _, _ => (dfail d ENoneDeref, apps)
+                       end) changed (d, []) in
+            let d := publish_changes d ch in
             match apps with
-            | [] => w
-            | _ => publish fuel w f (map (fun a => MEffectApplied (pj_item (fst a)) (pj_eff (fst a)) (snd a)) apps)
+            | [] => d
+            | _ => publish fuel w d f (map (fun a => MEffectApplied (pj_item (fst a)) (pj_eff (fst a)) (snd a)) apps)
             end
           | MFleetFitAdded | MFleetFitRemoved =>
             let added := match m with MFleetFitAdded => true | _ => false end in
-            let c0 := calc_of w s in
+            let c0 := calc_of d s in
             let msg_ship := fit_ship w f in
             let msg_fleet := fit_fleet w f in
             (* {projector_fit: [(projector, tgts)]} in insertion order *)
@@ -674,22 +666,22 @@ Section Publish.
                          end
                      end) (c_projectors c0) (Some []) in
             match groups with
-            | None => fail w ENoneDeref
+            | None => dfail d ENoneDeref
             | Some g =>
-              fold_left (fun w (p : nat * list (proj * list (option nat))) =>
-                           publish fuel w (fst p)
+              fold_left (fun d (p : nat * list (proj * list (option nat))) =>
+                           publish fuel w d (fst p)
                                    (map (fun a => if added
                                                   then MEffectApplied (pj_item (fst a)) (pj_eff (fst a)) (snd a)
                                                   else MEffectUnapplied (pj_item (fst a)) (pj_eff (fst a)) (snd a) false)
-                                        (snd p))) g w
+                                        (snd p))) g d
             end
-          | _ => w
+          | _ => d
           end in
-      fold_left (fun w m =>
-                   let w := set_trace w ((f, m) :: w_trace w) in
+      fold_left (fun d m =>
+                   let d := d_set_trace d ((f, m) :: d_trace d) in
                    match fit_solsys w f with
-                   | Some s => handle w s m
-                   | None => w
-                   end) msgs w
+                   | Some s => handle d s m
+                   | None => d
+                   end) msgs d
     end.
 End Publish.
